@@ -4,7 +4,7 @@ An entry never suppresses a *different* source in the same function."""
 PANIC_ALLOW = [
     {"path": "json_syntax::object::index_map::IndexMap::<S>::insert", "detail": "BoundsCheck",
      "reason": "`entries[index]`: every caller passes an index < entries.len() — push_entry passes the pre-push length after the push, "
-               "push_entry_front passes 0 after inserting at 0, from_vec/sort pass 0..len (rule C06.pair checks exactly these call sites)"},
+               "push_entry_front passes 0 after inserting at 0, from_vec/sort pass 0..len (rule C06.model interprets every writer on all small objects; its specification of IndexMap::insert is undecided, hence a violation, for a position beyond the entries)"},
     {"path": "json_syntax::object::index_map::Indexes::insert", "detail": "Vec index API",
      "reason": "`other.insert(i, index)` with i the Err position of binary_search on the same vector, hence i <= len (rule C06.sorted)"},
     {"path": "<json_syntax::Traverse<'a> as std::iter::Iterator>::next", "detail": "Overflow(Add)",
